@@ -26,7 +26,11 @@ func init() {
 				}
 			}
 			for i := 0; i < n; i++ {
-				cases = append(cases, Case{"prog": randomProg(rng, 8, 0.25, 7), "maxKeys": maxKeys, "seed": rng.Int63()})
+				maxLen := 8
+				if i%25 == 24 {
+					maxLen = 400 // long pieces: the key is carried through hundreds of chords, several modulations
+				}
+				cases = append(cases, Case{"prog": randomProg(rng, maxLen, 0.25, 7), "maxKeys": maxKeys, "seed": rng.Int63()})
 			}
 			return cases
 		},
